@@ -68,6 +68,18 @@ def run_entry(module, args, cwd):
     return p.returncode, p.stdout[-3000:], p.stderr[-3000:]
 
 
+def run_api(gpath, options, cwd):
+    env = dict(os.environ)
+    env["PYTHONPATH"] = os.environ.get("VERIF_REPO", "/repo")
+    env["MPLBACKEND"] = "Agg"
+    prog = ("import json, sys\nfrom hypnotoad.cases import tokamak\nfrom hypnotoad.core.mesh import BoutMesh\n"
+            f"options = json.loads({json.dumps(json.dumps(options))})\n"
+            f"with open({gpath!r}, 'rt') as fh:\n    eq = tokamak.read_geqdsk(fh, settings=options, nonorthogonal_settings=options)\n"
+            "mesh = BoutMesh(eq, options)\nmesh.calculateRZ()\nmesh.geometry()\nmesh.writeGridfile('bout.grd.nc')\nimport os\nsys.stdout.flush()\nos._exit(0)\n")
+    p = subprocess.run([sys.executable, "-c", prog], cwd=cwd, env=env, stdout=subprocess.PIPE, stderr=subprocess.PIPE, text=True, timeout=1500)
+    return p.returncode, p.stdout[-3000:], p.stderr[-3000:]
+
+
 def read_grid(path):
     from netCDF4 import Dataset
     num, txt = {}, {}
@@ -118,7 +130,11 @@ def roundtrip(req):
     for tag in ("A", "A2"):
         d = os.path.join(wd, tag)
         os.makedirs(d, exist_ok=True)
-        rc, o, e = run_entry("hypnotoad_geqdsk", [gpath, ypath], d)
+        if req.get("first_via_api"):
+            # the Python API / GUI path: the options are a dict in memory (an explicit None is an explicit None), same calls as the script makes
+            rc, o, e = run_api(gpath, req["options"], d)
+        else:
+            rc, o, e = run_entry("hypnotoad_geqdsk", [gpath, ypath], d)
         out["steps"].append(dict(step=f"generate:{tag}", rc=rc, err=e[-600:] if rc else ""))
         dirs[tag] = d
     gA = os.path.join(dirs["A"], "bout.grd.nc")
